@@ -74,6 +74,22 @@ CLAIMS = {
        "the class; 'derived' rows: the named builders write the member). The writer model follows locals through their initialisers and const "
        "getters one level deep; the reader model distinguishes stored values from error-branch defaults and follows locals into members. "
        "Thorough tier adds the storage-bin bulk-copy drivers (C10.bulk)."),
+ "C14": dict(
+  technique="kind coherence/coverage analysis of the COPY/DELETE/SAVE/USE drivers (kinds derived from the store types) + per-kind request consumption (ordering and post-dominance) + copy-completeness of user-provided copy operations + staleness-flag dominance",
+  text=("Static structural analysis of the keyed-store drivers. The eleven reactant kinds are derived from the repository (Phreeqc::Rxn_<kind>_map "
+        "store types, cross-checked against StorageBinList and the copier members). Decided: (a) in delete_entities, copy_entities, saver, set_use, "
+        "reinitialize and list_components every per-kind block touches exactly one kind (request list, store, helper and class all of the same "
+        "kind, established from types and member names) and the union of kinds is the expected set (exceptions frozen with reasons); (b) in "
+        "read_copy, read_use and read_save the kind named by each `case KEY_<KW>` label is the only kind its body touches, the `cell` case covers "
+        "every kind exactly once; (c) one-shot requests are consumed by the operation that executes them - copier_clear of the same kind after "
+        "each copy loop, SetAll(false) post-dominating every request-executing statement of delete_entities and dump_ostream; (d) user-provided "
+        "copy operations of entity classes copy every data member, implicitly copied classes hold no owning raw pointer, Rxn_copy renumbers the "
+        "copy; (e) every run marks the component list stale before the engine runs and ListComponents refreshes iff stale. Necessary conditions "
+        "of 'each operation touches exactly the named (kind, number) entries' and 'the component list reflects all reactants' (one defect of the "
+        "latter was replayed and fixed). NOT decided: number-range arithmetic, sequencing over arbitrary histories."),
+  note=NOTE_COMMON + "Frozen table: c14_expected.json (driver list, per-driver exceptions and the two multi-kind guard statements of set_use, each with a reason). "
+       "Kind tagging by member/method names uses the stems derived from the store names plus a fixed alias list (equilibrium_phases, solid_solutions, "
+       "reaction_temperature ...)."),
  "C12": dict(
   technique="Butcher-tableau extraction by reaching-definition dataflow on the CFG of rk_kinetics + exact rational order conditions (rooted trees to order 5) + step-bookkeeping shape",
   text=("Static analysis of Phreeqc::rk_kinetics only (the explicit integrator): the stage formulas Set_moles(sum a_sj*k_j), the stage "
